@@ -3,7 +3,7 @@ import PyxelModel.Model.C14
 /-! Line-protocol glue for C14.
 
 `{"rows":r,"cols":c,"h":[n,d],"w":[n,d],"ops":[["array",[[q,…],…]],["clusters",[[number,v,u],…]],
-  ["read"],["remove",[id,…]],["reset"]]}`  (every number a rational `[num,den]` or an integer)
+  ["read"],["remove",[id,…]],["reset"],["emptyAll",bool],["roundtrip",relabel]]}`  (every number a rational `[num,den]` or an integer)
 → `{"model":[{"out":"ok"|"ValueError"|<grid>,"frame":[[label,number,v,u],…],"nextid":n}, …],
     "spec":[<acc grid after each op>, …], "bins":[…per clusters op: [[i,j]|null,…]…]}`
 `spec` is the statement's accumulator (`acc`), evaluated for every pixel after every prefix. -/
@@ -29,6 +29,8 @@ def decOp (j : Json) : R Op := do
     | "array" => .ok (.addArray (← decGrid v))
     | "clusters" => .ok (.addClusters (← asList decCluster v))
     | "remove" => .ok (.remove (← asList asNat v))
+    | "roundtrip" => .ok (.roundtrip (← asBool v))
+    | "emptyAll" => do let _ ← asBool v; .ok .reset     -- Detector.empty(reset): `self.charge.empty()` for both values
     | s => .error s!"unknown unary op {s}"
   | _ => .error "op: expected [name] or [name, arg]"
 
